@@ -262,6 +262,71 @@ theorem ireduceOp_agree {st : St α} (hs : StoreOK4 V st) (n k : Nat) :
               (hv3 v hr) "ok "
             exact ⟨e4, hv4, hs1.2⟩
 
+
+omit h in
+theorem hornerGen_par {F F' : FOps α} {W : α → Prop} (hA : OpsAgree F F' W) (hC : Closed F W) :
+    ∀ (cs : List α), AllV W cs → hornerGen F' cs = hornerGen F cs ∧ W (hornerGen F cs) := by
+  intro cs
+  induction cs with
+  | nil => intro _; exact ⟨hA.zero, hC.zero⟩
+  | cons c t ih =>
+    intro hcs
+    obtain ⟨e, hv⟩ := ih (fun x hx => hcs x (List.mem_cons_of_mem _ hx))
+    have hc := hcs c List.mem_cons_self
+    have e' : hornerGen F' (c :: t) = F'.add (F'.mul (hornerGen F' t) F'.gen) c := rfl
+    have e'' : hornerGen F (c :: t) = F.add (F.mul (hornerGen F t) F.gen) c := rfl
+    rw [e', e'', e, hA.gen, hA.mul _ _ hv hC.gen, hA.add _ _ (hC.mul _ _ hv hC.gen) hc]
+    exact ⟨rfl, hC.add _ _ (hC.mul _ _ hv hC.gen) hc⟩
+
+theorem anyRewrite_eq (desc : FieldDesc) (dst idx : Nat) (op a0 : String) :
+    anyRewrite env' desc dst idx op a0 = anyRewrite env desc dst idx op a0 := by
+  have A := h.u.base.agree idx
+  have C := h.u.base.closed idx
+  have h1 : AllV (V idx) ((anyItems a0).map fun t => (env.fld idx).ofNat t.toNat!) := by
+    intro c hc; obtain ⟨t, _, rfl⟩ := List.mem_map.1 hc; exact h.u.ofNat idx _
+  have h2 : AllV (V idx) ((anyItems a0).map fun t => (env.fld idx).ofInt (parseInt t)) := by
+    intro c hc; obtain ⟨t, _, rfl⟩ := List.mem_map.1 hc; exact h.u.ofInt idx _
+  unfold anyRewrite
+  dsimp only
+  rw [A.enc, A.ofNat, A.ofInt, (hornerGen_par A C _ h1).1, (hornerGen_par A C _ h2).1]
+
+/-- `eN=any…@f arg`.  For the slice forms (`anysl`, `anyisl`, extension fields only) the model
+    goes through the raw decoder `eCtor … "enc"` applied to the ENCODING of a valid element; the
+    store stays valid provided decoding an encoded valid element gives a valid element (`hdec`). -/
+theorem anyOp_agree (desc : FieldDesc) {st : St α} (hs : StoreOK4 V st)
+    (hdec : ∀ i x v, V i x → (env.fld i).dec ((env.fld i).enc x) = some v → V i v)
+    (dst idx : Nat) (op a0 : String) :
+    anyOp env' desc st dst idx op a0 = anyOp env desc st dst idx op a0 ∧
+      StoreOK4 V (anyOp env desc st dst idx op a0).1 := by
+  have A := h.u.base.agree idx
+  have C := h.u.base.closed idx
+  unfold anyOp
+  rw [anyRewrite_eq h]
+  have enc_case : ∀ x, V idx x →
+      step env' desc st (.eCtor dst idx "enc" ((env.fld idx).enc x))
+        = step env desc st (.eCtor dst idx "enc" ((env.fld idx).enc x)) ∧
+      StoreOK4 V (step env desc st (.eCtor dst idx "enc" ((env.fld idx).enc x))).1 := by
+    intro x hx
+    simp only [step, stepE, String.reduceBEq, Bool.false_eq_true, if_false, if_true, fld]
+    rw [A.dec]
+    cases hd : (env.fld idx).dec ((env.fld idx).enc x) with
+    | none => exact ⟨rfl, hs⟩
+    | some v =>
+      obtain ⟨e, hv⟩ := putE h.u hs.1.1 dst (r := { home := idx, val := v }) rfl
+        (hdec idx x v hx hd) "ok "
+      exact ⟨e, ⟨hv, hs.1.2⟩, hs.2⟩
+  unfold anyRewrite
+  dsimp only
+  split_ifs with c1 c2 c3 c4 c5
+  · exact step_full_agree h desc hs _ rfl
+  · exact step_full_agree h desc hs _ rfl
+  · exact step_full_agree h desc hs _ rfl
+  · exact enc_case _ (hornerGen_par A C _ (fun c hc => by
+      obtain ⟨t, _, rfl⟩ := List.mem_map.1 hc; exact h.u.ofNat idx _)).2
+  · exact enc_case _ (hornerGen_par A C _ (fun c hc => by
+      obtain ⟨t, _, rfl⟩ := List.mem_map.1 hc; exact h.u.ofInt idx _)).2
+  · exact ⟨rfl, hs⟩
+
 end Extra
 end Tables
 end Algobra
